@@ -188,6 +188,23 @@ def rule_groups(rep: Report, idx, gram_rules_by) -> None:
 		return '?'
 	forms = {k: form(v) for k, v in branches.items()}
 	where = f.where
+	# the same dispatch as a table: `{Repeators.OverZero: ('(', ')*'), ...}` looked up with the repeat kind and pasted around the group
+	pcls = m.cls('Prettier')
+	rcls = m.cls('Repeators')
+	rep_values = {k: v.value for k, v in (rcls.class_attrs.items() if rcls else []) if isinstance(v, ast.Constant) and isinstance(v.value, str)}
+	tables = [v for v in (pcls.class_attrs.values() if pcls else []) if isinstance(v, ast.Dict) and v.keys and all(isinstance(k, ast.Attribute) and unparse(k.value) == 'Repeators' for k in v.keys) and all(isinstance(x, ast.Tuple) and len(x.elts) == 2 and all(isinstance(y, ast.Constant) and isinstance(y.value, str) for y in x.elts) for x in v.values)]
+	if len(tables) == 1 and any(isinstance(n, ast.Subscript) and isinstance(n.value, ast.Attribute) and n.value.attr in {k for k, v in pcls.class_attrs.items() if v is tables[0]} for n in ast.walk(f.node)):
+		want_of = {k: ('[{}]' if k == 'OneOrEmpty' else '({})' + v) for k, v in rep_values.items() if k != 'NoRepeat'}
+		for k_, v_ in zip(tables[0].keys, tables[0].values):
+			kind = k_.attr
+			got = v_.elts[0].value + '{}' + v_.elts[1].value
+			if kind in want_of:
+				r.check(got == want_of[kind], kind, (m.relpath, k_.lineno), f'a group with repeat {kind} is printed as `{got}`; the meta-grammar reads `{want_of[kind]}` back as that kind — `(x){rep_values.get(kind, "")}` printed as `{got}` parses back as another repeat kind (a `?` group printed `[x]` comes back one-or-EMPTY: an absent optional then leaves a placeholder in the tree and blocks the [1] unwrap), so from_ast(parse(pretty(g))) != g', unparse(v_))
+		missing = sorted(set(want_of) - {k_.attr for k_ in tables[0].keys})
+		r.check(not missing, 'table-complete', (m.relpath, tables[0].lineno), f'the bracket table of Prettier has no row for {missing}')
+		if repeat_optional and 'NoRepeat' in forms:
+			r.check(forms.get('NoRepeat') == '({})', 'NoRepeat', where, f'a group without repeat is printed `{forms.get("NoRepeat")}` (no brackets) although the meta-grammar lets it nest (expr_rep := "(" expr ")" [repeat]): `x := a (b | c)` is printed `x := a b | c`, which parses back to a different rule set', unparse(f.node)[-160:])
+		return
 	if '?' in set(forms.values()) - {forms.get('NoRepeat')} or 'OneOrEmpty' not in forms or '<else>' not in forms:
 		r.skip('forms', where, f'_deco_repeat no longer returns one bracket form per repeat kind (recognised: {forms})')
 		r.floor = 1
